@@ -1,36 +1,6 @@
 //@unit utils
 // L0: the three finders and their `check` helpers (DESIGN 5, L0).
 
-/// q is the line break `find_next_line_break_pos(.., p, pause)` must return
-pub open spec fn next_ok(b: Seq<u8>, p: int, q: int, pause: bool) -> bool {
-    &&& 0 < p <= q < b.len()
-    &&& is_lf(b[q])
-    &&& if pause { all_blank(b, p, q) } else { no_lf(b, p, q) }
-}
-
-/// q is the line break `find_prev_line_break_pos(.., p, pause)` must return (byte 0 is never examined)
-pub open spec fn prev_ok(b: Seq<u8>, p: int, q: int, pause: bool) -> bool {
-    &&& 0 < q < p <= b.len()
-    &&& is_lf(b[q])
-    &&& if pause { all_blank(b, q + 1, p) } else { no_lf(b, q + 1, p) }
-}
-
-/// a byte the finders step over: blank, or not the first byte of a character
-pub open spec fn skippable(b: Seq<u8>, k: int) -> bool { is_blank(b[k]) || !cb(b, k) }
-
-/// q is the position `find_next_char_pos(.., p)` must return
-pub open spec fn charpos_ok(b: Seq<u8>, p: int, q: int) -> bool {
-    &&& 0 < p <= q < b.len()
-    &&& cb(b, q) && !is_blank(b[q])
-    &&& forall|k: int| p <= k < q ==> skippable(b, k)
-}
-
-pub proof fn lemma_bytes_valid(content: &str)
-    ensures valid_utf8(content.spec_bytes()),
-{
-    encode_utf8_valid_utf8(content@);
-}
-
 pub mod line_break_pos_finder {
 use super::*;
 
@@ -63,6 +33,11 @@ use super::*;
         Some(q) => next_ok(bytes@, byte_pos as int, q as int, pause_on_char),
         None => forall|q: int| !next_ok(bytes@, byte_pos as int, q, pause_on_char),
     },
+//@ensures label=next_is_next_lb
+    r matches Some(q) ==> next_lb(bytes@, byte_pos as int, pause_on_char) == Some(q as int),
+    r is None ==> next_lb(bytes@, byte_pos as int, pause_on_char) is None,
+//@at body-start
+    proof { lemma_next_lb(bytes@, byte_pos as int, pause_on_char); }
 //@loop 1
 //@invariant
     bytes@ == content.spec_bytes(),
@@ -94,6 +69,11 @@ use super::*;
         Some(q) => prev_ok(bytes@, byte_pos as int, q as int, pause_on_char),
         None => forall|q: int| !prev_ok(bytes@, byte_pos as int, q, pause_on_char),
     },
+//@ensures label=prev_is_prev_lb
+    r matches Some(q) ==> prev_lb(bytes@, byte_pos as int, pause_on_char) == Some(q as int),
+    r is None ==> prev_lb(bytes@, byte_pos as int, pause_on_char) is None,
+//@at body-start
+    proof { lemma_prev_lb(bytes@, byte_pos as int, pause_on_char); }
 //@loop 1
 //@invariant
     bytes@ == content.spec_bytes(),
